@@ -167,6 +167,8 @@ def run(tier: str) -> int:
                 attribute(chk, [(None, dict(fam="R", doc=job[0], src=job[1], opts=dict(cli=job[2]), pass1=r["o1"], pass2=r["o2"]))])
     from harness import inline
     inline.judge(chk, tier, "C02")
+    from harness import table
+    table.judge(chk, tier, "C02")
     for id_ in list(metas)[:: max(1, len(metas) // 5)][:5]:
         chk.sample({k: (v if k != "pass2" else "(same)" if v == metas[id_]["pass1"] else v) for k, v in metas[id_].items()})
     chk.exhaustive = False
